@@ -20,6 +20,7 @@ import (
 	"fmt"
 	"os"
 	"path/filepath"
+	"sort"
 	"strconv"
 	"strings"
 	"sync"
@@ -69,6 +70,79 @@ type C struct {
 	sampleBy map[string]int
 
 	newStates, newOutcomes []uint64
+
+	// LastBubbleFailed: the sub-test of the last Bubble failed (under -race: a race was reported
+	// during that execution).
+	LastBubbleFailed bool
+	raceOff          int64
+}
+
+// RaceReport is one parsed data-race report.
+type RaceReport struct {
+	Text      string
+	Frames    [2]string // first repository function of each of the two accesses ("" if none)
+	Signature string
+}
+
+// NewRaceReports returns the race reports written to GORACE's log_path since the last call.
+func (c *C) NewRaceReports() []RaceReport {
+	lp := ""
+	for _, kv := range strings.Fields(os.Getenv("GORACE")) {
+		if strings.HasPrefix(kv, "log_path=") {
+			lp = kv[len("log_path="):]
+		}
+	}
+	if lp == "" {
+		return nil
+	}
+	b, err := os.ReadFile(fmt.Sprintf("%s.%d", lp, os.Getpid()))
+	if err != nil || int64(len(b)) <= c.raceOff {
+		return nil
+	}
+	txt := string(b[c.raceOff:])
+	c.raceOff = int64(len(b))
+	var out []RaceReport
+	for _, blk := range strings.Split(txt, "==================") {
+		if !strings.Contains(blk, "DATA RACE") {
+			continue
+		}
+		r := RaceReport{Text: blk}
+		secs := strings.Split(blk, "\n\n")
+		n := 0
+		for _, sec := range secs {
+			ls := strings.Split(strings.TrimSpace(sec), "\n")
+			if len(ls) == 0 {
+				continue
+			}
+			head := ls[0]
+			if strings.HasPrefix(head, "WARNING: DATA RACE") && len(ls) > 1 {
+				ls = ls[1:]
+				head = ls[0]
+			}
+			if !(strings.Contains(head, " by goroutine ") || strings.Contains(head, " by main goroutine")) {
+				continue
+			}
+			if n < 2 {
+				for _, l := range ls[1:] {
+					l = strings.TrimSpace(l)
+					if strings.HasPrefix(l, "github.com/IBM/TSS") {
+						f := l
+						if i := strings.LastIndex(f, "("); i > 0 {
+							f = f[:i]
+						}
+						r.Frames[n] = strings.TrimPrefix(f, "github.com/IBM/TSS/")
+						break
+					}
+				}
+				n++
+			}
+		}
+		fs := []string{r.Frames[0], r.Frames[1]}
+		sort.Strings(fs)
+		r.Signature = "race:" + fs[0] + "|" + fs[1]
+		out = append(out, r)
+	}
+	return out
 }
 
 func h64(s string) uint64 {
@@ -161,7 +235,7 @@ func (c *C) Thorough() bool { return c.Tier == "thorough" }
 // Bubble runs f inside a synctest bubble in a sub-test. It returns the recovered panic of the
 // bubble's own goroutine (including synctest's "blocked goroutines remain" at the end).
 func (c *C) Bubble(f func()) (rec interface{}) {
-	c.T.Run("b", func(t *testing.T) {
+	c.LastBubbleFailed = !c.T.Run("b", func(t *testing.T) {
 		defer func() {
 			if r := recover(); r != nil {
 				rec = r
